@@ -351,6 +351,44 @@ func c07Seed(c *Ctx, b *boardModel, zmove, zhash *ssa.Function) {
 			want := paramName(fork.Params[0]) + ".current.hash"
 			r.Check(val == want, "R07-seed", cons, c.pos(fs.Pos), "", fmt.Sprintf("stores %s, expected %s", val, want))
 		default:
+			// a helper method PushMove was split into: the same rule with the helper's own parameter
+			// names, the move being the parameter PushMove's move is passed as
+			if push != nil && fs.Fn.Signature.Recv() != nil && fs.Fn.Pkg == push.Pkg && types.Identical(fs.Fn.Signature.Recv().Type(), push.Signature.Recv().Type()) {
+				var site ssa.CallInstruction
+				for _, pb := range push.Blocks {
+					for _, pi := range pb.Instrs {
+						if pc, ok := pi.(ssa.CallInstruction); ok && pc.Common().StaticCallee() == fs.Fn {
+							site = pc
+						}
+					}
+				}
+				if site != nil {
+					seen["PushMove"] = true
+					mName := ""
+					for i, a := range site.Common().Args {
+						if (stripConv(a) == ssa.Value(push.Params[1]) || pathExpr(a) == paramName(push.Params[1])) && i < len(fs.Fn.Params) {
+							mName = paramName(fs.Fn.Params[i])
+						}
+					}
+					recv := paramName(fs.Fn.Params[0])
+					want := fmt.Sprintf("Move(%s.zt,%s.current.hash,%s.current.pos,%s)", recv, recv, recv, mName)
+					call, isCall := st.Val.(*ssa.Call)
+					okv := mName != "" && val == want && isCall && call.Call.StaticCallee() == zmove
+					detail := fmt.Sprintf("stores %s, expected %s", val, want)
+					if okv {
+						for _, fs2 := range allFieldStores(c.P) {
+							if fs2.Fn == fs.Fn && fs2.Field == "current" && fs2.Named != nil && core.ObjName(fs2.Named.Obj()) == "Board" {
+								if !instrDominates(call, fs2.Instr) {
+									okv = false
+									detail = "zt.Move is evaluated after b.current was advanced (hashes with the new position)"
+								}
+							}
+						}
+					}
+					r.Check(okv, "R07-seed", "store node.hash in "+c.P.FuncName(push), c.pos(fs.Pos), "", detail)
+					continue
+				}
+			}
 			r.Fail("R07-seed", cons, c.pos(fs.Pos), "", "unexpected writer of node.hash: "+val)
 		}
 	}
